@@ -99,6 +99,7 @@ class UpdaterWorld(World):
             return {"config": cfg, "ops": ops}
         cfg["bound"] = rc.choice([None, None] + HALF + FULL)
         cfg["sides"] = rc.choice(["both", "both", "upper", "lower"])
+        cfg["on_limit"] = cfg["bound"] in ("sharp", "f_sharp") and stream(seed, "onlimit").random() < 0.5
         cfg["start"] = rc.choice(["inside", "inside", "outside"]) if cfg["bound"] in (None, "mult", "sharp", "f_mult", "f_sharp") else "inside"
         numel = int(np.prod(shape))
         ops = []
@@ -142,8 +143,14 @@ class UpdaterWorld(World):
         def init(sh):
             u = torch.rand(sh, generator=g)
             if start == "inside":
-                return lo + (hi - lo) * (0.05 + 0.9 * u)
-            return lo - 0.5 + (hi - lo + 1.0) * u
+                v = lo + (hi - lo) * (0.05 + 0.9 * u)
+            else:
+                v = lo - 0.5 + (hi - lo + 1.0) * u
+            if cfg.get("on_limit"):
+                # some elements sit exactly on a limit they "have reached" (the limits are exactly representable in float32)
+                v = torch.where(u < 0.25, torch.full_like(v, hi), v)
+                v = torch.where(u > 0.75, torch.full_like(v, lo), v)
+            return v
         red = {None: None, "spy_sum": spy, "mean": torch.mean, "amax": torch.amax}[cfg["reduction"]]
         kw = {} if red is None else {"reduction": red}
         if cfg["parent"] == "dense":
